@@ -365,12 +365,19 @@ impl RuntimeContract {
         ctr: Self,
         env2: &Environment,
     ) {
-        for c in contracts.iter() {
-            increment!("contracts:equality-checks");
+        // Contracts that might have polymorphic subcontracts aren't idempotent (applying `a`
+        // seals or unseals a value), and thus can't be deduplicated. See
+        // [crate::label::Label::can_have_poly_ctrs].
+        if !ctr.can_have_poly_ctrs() {
+            for c in contracts.iter() {
+                increment!("contracts:equality-checks");
 
-            if contract_eq::contract_eq(&c.contract, env1, &ctr.contract, env2) {
-                increment!("contracts:deduped");
-                return;
+                if !c.can_have_poly_ctrs()
+                    && contract_eq::contract_eq(&c.contract, env1, &ctr.contract, env2)
+                {
+                    increment!("contracts:deduped");
+                    return;
+                }
             }
         }
 
